@@ -21,6 +21,15 @@ ASSUMPTIONS = ["interpolation residual <= 1e-7 * (1 + max |Q|)",
 def _walk(draw, n, dim):
     """n points: a random walk on the 1/8 grid with every step between 1/4 and 4 in max-norm."""
     pts = [[draw(st.integers(-32, 32)) / 8.0 for _ in range(dim)]]
+    if draw(st.integers(0, 3)) == 0:
+        # strongly uneven sampling: step lengths 2^-3 .. 2^6 (dense runs separated by gaps)
+        for _ in range(n - 1):
+            lead = draw(st.integers(0, dim - 1))
+            mag = 2.0 ** draw(st.sampled_from([-3, -3, -2, -1, 0, 2, 4, 6, 6]))
+            step = [draw(st.integers(-1, 1)) * mag / 2 for _ in range(dim)]
+            step[lead] = draw(st.sampled_from([-1.0, 1.0])) * mag
+            pts.append([a + b for a, b in zip(pts[-1], step)])
+        return pts
     for _ in range(n - 1):
         step = [draw(st.integers(-32, 32)) / 8.0 for _ in range(dim)]
         lead = draw(st.integers(0, dim - 1))
@@ -45,6 +54,20 @@ def _grid(draw, nu, nv):
         for j in range(nv):
             pts.append([xs[i] + draw(st.integers(-1, 1)) / 8.0, ys[j] + draw(st.integers(-1, 1)) / 8.0, draw(st.integers(-16, 16)) / 8.0])
     return pts
+
+
+SCALES = st.sampled_from([0, 0, 0, 0, -30, -24, 20])      # data in very small / large units: exact powers of two
+
+
+def _scaled(pts, e):
+    return [[c * 2.0 ** e for c in p] for p in pts] if e else pts
+
+
+def _extent(Q):
+    """Tolerances are relative to the size of the data (largest coordinate difference, at least the largest coordinate)."""
+    lo = [min(q[d] for q in Q) for d in range(len(Q[0]))]
+    hi = [max(q[d] for q in Q) for d in range(len(Q[0]))]
+    return max(max(h - l for h, l in zip(hi, lo)), max(abs(c) for q in Q for c in q))
 
 
 def params_curve(pts, centripetal):
@@ -110,7 +133,7 @@ def _chord_ratio(pts):
 def _interp_curve_cases(draw, tier):
     n = draw(st.integers(3, 40 if tier == "thorough" else 16))
     dim = draw(st.sampled_from([2, 3]))
-    return {"pts": draw(_walk(n, dim)), "degree": draw(st.integers(1, min(5, n - 1))), "centripetal": draw(st.booleans())}
+    return {"pts": _scaled(draw(_walk(n, dim)), draw(SCALES)), "degree": draw(st.integers(1, min(5, n - 1))), "centripetal": draw(st.booleans())}
 
 
 def check_interp_curve(case, ctx):
@@ -126,7 +149,8 @@ def check_interp_curve(case, ctx):
     kv = averaged_kv(p, n, uk)
     ctx.check(len(crv.knotvector) == len(kv) and all(abs(a - b) <= 1e-12 for a, b in zip(crv.knotvector, kv)), "knot-vector",
               "knot vector %r, averaging (Eq 9.8) of the %s parameters gives %r" % (list(crv.knotvector), "centripetal" if cen else "chord-length", kv))
-    big = 1.0 + max(abs(c) for q in Q for c in q)
+    big = _extent(Q)
+    ctx.label("data-in-tiny-or-huge-units", big < 1e-3 or big > 1e4)
     P, U = [list(x) for x in crv.ctrlpts], list(crv.knotvector)
     for k, (u, q) in enumerate(zip(uk, Q)):
         got = crv.evaluate_single(u)
@@ -173,7 +197,7 @@ def _approx_curve_cases(draw, tier):
     dim = draw(st.sampled_from([2, 3]))
     p = draw(st.integers(1, min(5, n - 3)))
     h = draw(st.integers(p + 2, n - 1))          # the property quantifies over degree+2 .. n-1 control points
-    return {"pts": draw(_walk(n, dim)), "degree": p, "size": h, "centripetal": draw(st.booleans()), "default": draw(st.integers(0, 5)) == 0}
+    return {"pts": _scaled(draw(_walk(n, dim)), draw(SCALES)), "degree": p, "size": h, "centripetal": draw(st.booleans()), "default": draw(st.integers(0, 5)) == 0}
 
 
 def check_approx_curve(case, ctx):
@@ -190,7 +214,8 @@ def check_approx_curve(case, ctx):
     ctx.nt(n >= 2 * (h - p), "few-control-points")
     ctx.check(crv.degree == p, "degree", "requested degree %d, got %r" % (p, crv.degree))
     ctx.check(crv.ctrlpts_size == h, "ctrlpts-count", "requested %d control points, got %d" % (h, crv.ctrlpts_size))
-    big = 1.0 + max(abs(c) for q in Q for c in q)
+    big = _extent(Q)
+    ctx.label("data-in-tiny-or-huge-units", big < 1e-3 or big > 1e4)
     P, U = [list(x) for x in crv.ctrlpts], list(crv.knotvector)
     ctx.check(len(U) == h + p + 1 and all(a <= b for a, b in zip(U, U[1:])) and U[p] == 0.0 and U[h] == 1.0, "knot-vector-shape", "knot vector %r" % U)
     ctx.check(all(abs(a - b) <= 1e-12 * big for a, b in zip(crv.evaluate_single(0.0), Q[0])) and
